@@ -28,7 +28,9 @@ func decompose(v any, opt *Options) any {
 	case int32:
 		v = int64(tv)
 	case uint:
-		v = int64(tv)
+		if uint64(tv) <= math.MaxInt64 {
+			v = int64(tv)
+		}
 	case uint8:
 		v = int64(tv)
 	case uint16:
@@ -36,7 +38,9 @@ func decompose(v any, opt *Options) any {
 	case uint32:
 		v = int64(tv)
 	case uint64:
-		v = int64(tv)
+		if tv <= math.MaxInt64 {
+			v = int64(tv)
+		}
 	case float32:
 		// This small rounding makes the conversion from 32 bit to 64 bit
 		// display nicer.
@@ -91,7 +95,9 @@ func alter(v any, opt *Options) any {
 	case int32:
 		v = int64(tv)
 	case uint:
-		v = int64(tv)
+		if uint64(tv) <= math.MaxInt64 {
+			v = int64(tv)
+		}
 	case uint8:
 		v = int64(tv)
 	case uint16:
@@ -99,7 +105,9 @@ func alter(v any, opt *Options) any {
 	case uint32:
 		v = int64(tv)
 	case uint64:
-		v = int64(tv)
+		if tv <= math.MaxInt64 {
+			v = int64(tv)
+		}
 	case float32:
 		// This small rounding makes the conversion from 32 bit to 64 bit
 		// display nicer.
